@@ -19,6 +19,7 @@ import Golib.Layout.ValueInst
 import Golib.Layout.Prefix
 import Golib.Layout.History
 import Golib.Packs.Profile
+import Golib.Packs.Caps
 import Golib.Packs.Container
 import Golib.Packs.Tree
 import Golib.Packs.Hand
@@ -179,6 +180,23 @@ theorem records_roundtrip (bw br : L) (h : agrees (recordsW bw) (recordsW br) = 
     ∃ e', (recordsW br).read "" e ((recordsW bw).write e "" x ++ rest)
       = some ((recordsW bw).expect e "" x, e', rest) :=
   Packs.records_roundtrip valueRT bw br h e x rest hwf
+
+/-! ### bounded tables inside packs (StatRemoteIpPack.IpTable ≤ 10000, StatUserAgentPack.UserAgents ≤ 500) -/
+
+/-- a decoded pack carries of a wire table (distinct keys) put row by row into a table bounded by `max`
+    exactly its last `max` rows, in order — the oldest rows are evicted -/
+theorem bounded_table_keeps_last (max : Nat) (h : 1 ≤ max) (rows : List α) :
+    rows.foldl (capPut max) [] = capRows max rows := foldl_capPut max h rows
+
+/-- … in particular a table within the limit is carried whole -/
+theorem bounded_table_within_limit (max : Nat) (rows : List α) (h : rows.length ≤ max) :
+    capRows max rows = rows := capRows_of_le max rows h
+
+theorem bounded_table_size (max : Nat) (rows : List α) : (capRows max rows).length ≤ max :=
+  capRows_length max rows
+
+example : capRows 3 [1, 2, 3, 4, 5] = [3, 4, 5] := by decide
+example : [1, 2, 3, 4, 5].foldl (capPut 3) [] = [3, 4, 5] := by decide
 
 /-! ### ProfilePack: the common header, then the body modelled and proved by property C08 -/
 
